@@ -1,7 +1,7 @@
 -------------------------- MODULE TextScreen_Trace --------------------------
 (* Total trace specification for C36.  One event per BASIC statement run on
    the real interpreter:
-     {op, s, nl, r, c, t, b, n, m, nw, nmode, ok, code, reset,
+     {op, s, nl, r, c, t, b, n, m, nw, nmode, ok, code, msg (bytes of the error message when refused), reset,
       obs: {w, h, mode, top, bot, view, row, col, ovf, bra, wrap,    -- projection of TextScreen
             csrlin, pos,                                             -- CSRLIN, POS(0) as evaluated by BASIC
             rows: [[r, [bytes]], ..],                                -- rows of Session.get_chars() that differ
@@ -32,19 +32,32 @@ ScrOk(e, s1) ==
     \A i \in 1..Len(e.obs.scr) :
         LET q == e.obs.scr[i] IN q[3] = ScreenFn(s1, q[1], q[2])
 
+(* A statement that is refused in direct mode changes nothing but prints its error message: the cursor goes to the start of
+   the next line unless it is in column 1 (console.start_line), then the message, CHR$(255) and a line end are written like
+   any console output.  e.msg is the message text of the error code (the documented table, supplied by the harness).
+   In particular a refused statement leaves no permission to write the bottom row behind.                              *)
+StartLine(s) ==
+    LET s1 == IF s.col # 1 THEN SetPos(s, s.row + 1, 1, TRUE) ELSE s
+    IN  IF s1.row > 1 THEN [s1 EXCEPT !.wrap[s1.row - 1] = FALSE] ELSE s1
+Refused(s, e) == ConsoleWrite(StartLine(s), e.msg \o <<255, 13>>)
+WithMsg(e) == ~e.ok /\ Has(e, "msg")
+
 Verdict(e, s0, s1, obs) ==
     LET must == Must(s0, e) IN
     IF ~(InScreen(obs) /\ e.obs.csrlin \in 1..obs.h /\ e.obs.pos \in 1..obs.w) THEN "cursor_outside_screen"
     ELSE IF must = "ifc" /\ ~Accepts(must, e.ok, e.code) THEN "position_outside_screen_not_refused_with_illegal_function_call"
     ELSE IF must = "ok" /\ ~e.ok THEN "statement_refused"
     ELSE IF ~Accepts(must, e.ok, e.code) THEN "refused_with_other_error_than_illegal_function_call"
-    ELSE IF ~e.ok THEN "ok"
-    ELSE IF (e.op \in {"width", "screen"} /\ ~WidthOk(s0, e)) \/ s1.w # obs.w THEN "width_or_mode_change_differs"
-    ELSE IF e.op = "locate" /\ e.r # -1 /\ e.c # -1 /\ (e.obs.csrlin # e.r \/ e.obs.pos # e.c)
+    ELSE IF ~e.ok /\ ~WithMsg(e) THEN "ok"
+    ELSE IF e.ok /\ ((e.op \in {"width", "screen"} /\ ~WidthOk(s0, e)) \/ s1.w # obs.w) THEN "width_or_mode_change_differs"
+    ELSE IF e.ok /\ e.op = "locate" /\ e.r # -1 /\ e.c # -1 /\ (e.obs.csrlin # e.r \/ e.obs.pos # e.c)
          THEN "locate_did_not_move_to_requested_cell"
-    ELSE IF Csrlin(s1) # e.obs.csrlin \/ Pos(s1) # e.obs.pos THEN "cursor_differs_from_reference"
+    ELSE IF WithMsg(e) /\ (s1.w # obs.w \/ s1.h # obs.h) THEN "refused_statement_changed_the_screen_size"
+    ELSE IF Csrlin(s1) # e.obs.csrlin \/ Pos(s1) # e.obs.pos
+         THEN IF e.ok THEN "cursor_differs_from_reference" ELSE "cursor_after_refused_statement_differs_from_reference"
     ELSE IF s1.buf # obs.buf THEN
-         IF e.op \in {"print", "cls"} /\ s0.view /\ s0.w = obs.w
+         IF ~e.ok THEN "screen_after_refused_statement_differs_from_reference"
+         ELSE IF e.op \in {"print", "cls"} /\ s0.view /\ s0.w = obs.w
             /\ \E r \in 1..s0.h : r \notin s0.top..s0.bot /\ obs.buf[r] # s0.buf[r]
          THEN "row_outside_view_print_window_changed"
          ELSE "screen_content_differs_from_reference"
@@ -56,9 +69,9 @@ Step(e) ==
     IF e.op = "init" THEN st' = ObsSt(e, <<>>) /\ viol' = viol
     ELSE
     LET obs == ObsSt(e, st.buf)
-        s1  == IF e.ok THEN Effect(st, e) ELSE st
+        s1  == IF e.ok THEN Effect(st, e) ELSE IF WithMsg(e) THEN Refused(st, e) ELSE st
         v   == Verdict(e, st, s1, obs)
-    IN  /\ st' = IF v = "ok" /\ e.ok THEN s1 ELSE obs
+    IN  /\ st' = IF v = "ok" /\ (e.ok \/ WithMsg(e)) THEN s1 ELSE obs
         /\ viol' = IF v = "ok" THEN viol ELSE Append(viol, <<l, v>>)
 
 TInit == st = Fresh(1, 1, 0) /\ l = 1 /\ viol = <<>>
